@@ -573,4 +573,59 @@ Proof.
     + unfold cids_of. destruct (pr_provs pt) as [|a l], (pr_provs pt') as [|a' l']; cbn in Ept2 |- *; try discriminate; [reflexivity|].
       assert (E1 : nn' a' = nn' a) by congruence. rewrite <- (nn'_chan a'), E1, nn'_chan. reflexivity.
 Qed.
+
+(* ---------------------------------------------------------------- runs *)
+Lemma pids_rel c c' : crel c c' -> pids c' = pids c.
+Proof.
+  intros (Hp & _ & _). unfold pids.
+  assert (E : (fun _ => tt) <$> procs c' = (fun _ => tt) <$> procs c).
+  { apply map_eq. intros q. rewrite !lookup_fmap. specialize (Hp q).
+    destruct (procs c !! q), (procs c' !! q); cbn in *; try contradiction; reflexivity. }
+  apply (f_equal (fun m => map fst (map_to_list m))) in E. rewrite !gmap_to_list_fmap in E.
+  change (prod_map id (fun _ : proc => tt) <$> ?l) with (map (prod_map id (fun _ : proc => tt)) l) in E.
+  rewrite !map_map in E. exact E.
+Qed.
+
+Lemma enabled_rel md Δ Δ' c c' : cfg_typed D F teq Δ c -> cfg_typed D F' teq Δ' c' -> crel c c' ->
+  enabled md D F' c' = enabled md D F c.
+Proof.
+  intros H1 H2 Hc. unfold enabled, candidates. rewrite (pids_rel c c' Hc). apply filter_ext. intros ch.
+  pose proof (step_rel md Δ Δ' c c' ch H1 H2 Hc) as Hs.
+  destruct (Runtime.step md D F c ch), (Runtime.step md D F' c' ch); cbn in Hs; try contradiction; reflexivity.
+Qed.
+
+Section Runs.
+Variable md : exec_mode.
+Variables I I' : config -> Prop.
+Hypothesis I_typed : forall c, I c -> exists Δ, cfg_typed D F teq Δ c.
+Hypothesis I_step : forall c ch d, I c -> Runtime.step md D F c ch = SStep d -> I d.
+Hypothesis I'_typed : forall c, I' c -> exists Δ, cfg_typed D F' teq Δ c.
+Hypothesis I'_step : forall c ch d, I' c -> Runtime.step md D F' c ch = SStep d -> I' d.
+
+Theorem run_rel pick : forall fuel c c', I c -> I' c' -> crel c c' ->
+  kind_of (exec_run fuel pick md D F' c') = kind_of (exec_run fuel pick md D F c) /\
+  crel (final_cfg (exec_run fuel pick md D F c)) (final_cfg (exec_run fuel pick md D F' c')).
+Proof.
+  induction fuel as [|fuel IH]; intros c c' Hi Hi' Hc; cbn [exec_run]; [split; [reflexivity | exact Hc]|].
+  destruct (I_typed c Hi) as [Δ Ht]. destruct (I'_typed c' Hi') as [Δ' Ht'].
+  rewrite (enabled_rel md Δ Δ' c c' Ht Ht' Hc).
+  destruct (enabled md D F c) as [|e0 es]; [split; [reflexivity | exact Hc]|].
+  set (ch := nth (pick (S fuel) (S (length es)) mod S (length es)) (e0 :: es) e0).
+  pose proof (step_rel md Δ Δ' c c' ch Ht Ht' Hc) as Hs.
+  destruct (Runtime.step md D F c ch) as [|d|w e] eqn:E1, (Runtime.step md D F' c' ch) as [|d'|w' e'] eqn:E2; cbn in Hs; try contradiction.
+  - split; [reflexivity | exact Hc].
+  - apply IH; eauto.
+  - destruct Hs as [-> ->]. split; [reflexivity | exact Hc].
+Qed.
+
+Corollary run_rel_labels pick fuel c c' : I c -> I' c' -> crel c c' ->
+  kind_of (exec_run fuel pick md D F' c') = kind_of (exec_run fuel pick md D F c) /\
+  labels (final_cfg (exec_run fuel pick md D F' c')) = labels (final_cfg (exec_run fuel pick md D F c)) /\
+  pids (final_cfg (exec_run fuel pick md D F' c')) = pids (final_cfg (exec_run fuel pick md D F c)).
+Proof.
+  intros Hi Hi' Hc. destruct (run_rel pick fuel c c' Hi Hi' Hc) as [H1 H2]. split; [exact H1|]. split.
+  - unfold labels. destruct H2 as (_ & _ & Ho). now rewrite Ho.
+  - now apply pids_rel.
+Qed.
+End Runs.
 End Rel.
